@@ -283,7 +283,7 @@ def execute(case, ctx):
 
 
 MANIFEST = {
-    "technique": "property-based fuzzing of the documented workflow under ASan+UBSan with asserts (Hypothesis-generated scenarios; oracle = sanitizer reports, Eigen bounds assertions, and answer equality under two allocator fill patterns)",
-    "text": "Seeded random search over valid models (weighted to sparse operators) and random selections of the whole documented workflow, executed in an ASan+UBSan build with asserts; any report, bounds assertion or fatal signal fails, and results must not depend on the allocator fill byte.",
+    "technique": "property-based fuzzing of the documented workflow under ASan+UBSan with asserts (Hypothesis-generated scenarios; oracle = sanitizer reports, Eigen bounds assertions, answer equality under the 0x00 / 0xFF (NaN) allocator fill patterns, and valgrind memcheck on a sample of the scenarios)",
+    "text": "Seeded random search over valid models (weighted to sparse operators) and random selections of the whole documented workflow, executed in an ASan+UBSan build with asserts; any report, bounds assertion or fatal signal fails, results must not depend on the allocator fill byte, and a sample of the scenarios is repeated uninstrumented under valgrind memcheck (reports with a pomerol frame fail).",
     "note": "Trusted: clang/gcc sanitizer runtimes; the runner (itself sanitized). Leaks and pomerol's own debug-only invariant assertions are outside the statement and not judged.",
 }
